@@ -325,19 +325,27 @@ fn loaded_spec() -> super::elf::Spec {
     s
 }
 
-fn run_loaded(ctx: &mut Ctx, prop: &'static str, chunk: u64, nchunks: u64) {
+/// Put ctx.m through the real loader with the loaded-machine image; false (and a machinery note) when that fails.
+pub fn load_loaded_machine(ctx: &mut Ctx, chunk: u64) -> bool {
     let spec = loaded_spec();
     let path = crate::hv::shard::verif_dir().join(".work").join(format!("loaded-{}-{}.elf", std::process::id(), chunk));
     let _ = std::fs::create_dir_all(path.parent().unwrap());
     if std::fs::write(&path, spec.build()).is_err() {
         ctx.machinery("cannot write the scratch ELF file".into());
-        return;
+        return false;
     }
     let ok = load_into_fresh(ctx, path.to_str().unwrap(), "");
     let _ = std::fs::remove_file(&path);
     if !ok {
         ctx.machinery("the real loader rejected the generated ELF of the loaded-machine unit".into());
         ctx.m = Mach::new();
+        return false;
+    }
+    true
+}
+
+fn run_loaded(ctx: &mut Ctx, prop: &'static str, chunk: u64, nchunks: u64) {
+    if !load_loaded_machine(ctx, chunk) {
         return;
     }
     let l = loaded_layout();
